@@ -4,15 +4,17 @@ from contracts.parsr import M
 T = "insights/core/taglang.py"
 SIDECARS = ["parsr"]
 _CLASSES = ["AnyChar", "Char", "InSet", "Sequence", "Choice", "Many", "FollowedBy", "NotFollowedBy", "KeepLeft", "KeepRight", "Opt",
-            "Wrapper", "Forward", "EOF", "Literal", "Until", "Map"]
-UNITS = [(M, c + ".process") for c in _CLASSES] + [(T, "Not.test"), (T, "And.test"), (T, "Or.test")]
-NOT_CARRIED = ["String, Lift, PosMarker, the comment / indentation / tag-name parsers are not under contract in this revision; Literal: positions and the "
+            "Wrapper", "Forward", "EOF", "Literal", "Until", "Map", "String", "PosMarker", "Lift"]
+_BUILDERS = ["Parser.__add__", "Parser.__or__", "Parser.__lshift__", "Parser.__rshift__", "Parser.__and__", "Parser.__truediv__", "Parser.until",
+             "Parser.map", "Node.add_child", "Sequence.__add__", "Choice.__or__", "Parser._accumulate"]
+UNITS = [(M, c + ".process") for c in _CLASSES] + [(M, b) for b in _BUILDERS] + [(T, "Not.test"), (T, "And.test"), (T, "Or.test")]
+NOT_CARRIED = ["the comment / indentation / tag-name / hanging-string parsers are not under contract in this revision; Literal: positions and the "
                "match condition for both case modes, the value only for the case-sensitive mode and for an explicit value",
                "the _ParserMeta debug wrapper (_debug_hook) around every process()",
                "the interface P.process (ok/npos/val) is the denotation each class's contract DEFINES by its equation; that a grammar built from these classes computes the composed denotation: structural induction over grammar terms (meta-step)",
                "the shipped grammars as wholes (JSON example grammar vs json; tag language precedence as parsed): whole-grammar language "
                "equivalence is not decided deductively - bounded stand-ins only (they found the fixed defects 445b74d and d0eb441); taglang: only "
-               "And/Or/Not.test are under contract; sep_by / Lift / String are not under contract",
+               "And/Or/Not.test are under contract; the operator overloads / until / map / add_child that build the combinators and sep_by's accumulator are under contract (class, children, order; constructors assumed to store their arguments); the sep_by expression itself (Lift * Opt * Many) is not",
                "termination of Many over non-consuming children (excluded by the property's own quantifier)"]
 
 
@@ -28,7 +30,7 @@ def bounded(check):
              lambda info: "/venv/bin/python -c 'from insights.core.taglang import parse; print(parse(%r).test(%r))'" % (info.get("expr"), info.get("tags"))),
             ("every grammar term == reference PEG interpreter (accept / value / position); JSON example grammar == json.loads", "peg_small_scope.py",
              ["3", "quick" if check.tier == "quick" else "full"],
-             "terms of depth <= 2 over 6 leaves and 8 combinators (%s), inputs over {a,b} up to length 3; 93 JSON documents + 6 malformed"
+             "terms of depth <= 2 over 6 leaves and 8 combinators (%s) + 339 terms written with the operators + | << >> & / , until, sep_by, String, inputs over {a,b} up to length 3; 93 JSON documents + 6 malformed"
              % ("every third depth-1 term as a sub-term" if check.tier == "quick" else "all"), "C19-bounded-peg.json", None)]
     for name, script, args, bound, rfile, cmdf in jobs:
         p = subprocess.run(["/venv/bin/python", os.path.join(here, "bounded", script), check.repo.root] + args,
